@@ -226,7 +226,10 @@ CHECKS["C11"] = dict(
         "(next message, or at end of input flush; print; repeat - it never looks at the child) produces; with --quiet nothing is printed; "
         "the specification is deterministic in its fuel. Tie on every run: recordings of 0..4 transmissions (lossy, header after header, "
         "close-cut, odd trailing byte, 8000..48000 Hz) are decoded by the library, run through the EXTRACTED App model, and through the built "
-        "binary under 10 option/child/input variants (--file, the file as standard input, a pipe written in odd-sized chunks with a pause): stdout(binary) == o_stdout(model) == library messages, exit 0.",
+        "binary under 10 option/child/input variants (--file, the file as standard input, a pipe written in odd-sized chunks with a pause): stdout(binary) == o_stdout(model) == library messages, exit 0. "
+        "The sample source is modelled and proved too: for every state of the buffered reader and every chunking of the bytes still to come, "
+        "the iterator main.rs builds yields the samples of the byte stream as a whole (a lone last byte dropped) and stays finished after its "
+        "first None; tied by running that iterator expression in the harness over a chunk-scripted Read against the extracted model.",
    note=APP_NOTE,
    technique="Coq refinement proof (app loop vs print-every-message spec) + extracted-model / binary / library three-way correspondence",
    ref="§5 C11, §11")
